@@ -23,7 +23,7 @@ from .state import (
     PduHeader,
     tag_data_type,
 )
-from .utils import IE_ID_16BIT, check_param, FixedOffset
+from .utils import IE_ID_8BIT, IE_ID_16BIT, check_param, FixedOffset
 
 
 NULL = b'\x00'
@@ -519,21 +519,26 @@ class SubmitSm(Trackable, SmppMessage):
             ind: int = 0
             if esm_class & 0b01000000:
                 # UDHI flag set, decode UDH
-                udh_len: int
+                udh_len: int = unpack_from('!B', raw_message, 0)[0]
                 ie_id: int
-                udh_len, ie_id = unpack_from('!BB', raw_message, 0)
-                if ie_id == IE_ID_16BIT:
-                    ref_num = unpack_from('!H', raw_message, 3)[0]
-                    ind = 5
-                else:
-                    ref_num = unpack_from('!B', raw_message, 3)[0]
-                    ind = 4
-                total = unpack_from('!B', raw_message, ind)[0]
-                seq_num = unpack_from('!B', raw_message, ind + 1)[0]
+                ie_len: int
+                concatenated: bool = False
+                ind = 1
+                # The concatenation element may be preceded by other elements (e.g. port addressing)
+                while ind + 2 <= udh_len + 1:
+                    ie_id, ie_len = unpack_from('!BB', raw_message, ind)
+                    if ie_id == IE_ID_16BIT and ie_len == 4:
+                        ref_num, total, seq_num = unpack_from('!HBB', raw_message, ind + 2)
+                        concatenated = True
+                    elif ie_id == IE_ID_8BIT and ie_len == 3:
+                        ref_num, total, seq_num = unpack_from('!BBB', raw_message, ind + 2)
+                        concatenated = True
+                    ind += 2 + ie_len
                 ind = udh_len + 1
-                optional_params.append(OptionalParam(SAR_MSG_REF_NUM, ref_num))
-                optional_params.append(OptionalParam(SAR_SEGMENT_SEQNUM, seq_num))
-                optional_params.append(OptionalParam(SAR_TOTAL_SEGMENTS, total))
+                if concatenated:
+                    optional_params.append(OptionalParam(SAR_MSG_REF_NUM, ref_num))
+                    optional_params.append(OptionalParam(SAR_SEGMENT_SEQNUM, seq_num))
+                    optional_params.append(OptionalParam(SAR_TOTAL_SEGMENTS, total))
             return codec_info.decode(raw_message[ind:])[0]
 
         optional_params: List[OptionalParam] = []
